@@ -317,6 +317,10 @@ def slot_templates():
     t["json_contains_doc"] = (1, lambda h: ["and", ["contains", A_, ["raw", {"k": 7301}]], ["eq", B_, h[0]]])
     t["json_has_keys"] = (1, lambda h: ["and", ["has_any_keys", A_, ["raw", ["k1", "k2"]]], ["eq", B_, h[0]]])
     t["json_path"] = (1, lambda h: ["eq", ["get_path_text_value", A_, ["raw", "{a,b}"]], h[0]])
+    t["json_path_json"] = (1, lambda h: ["eq", ["get_path_json_value", A_, ["raw", "{a,b}"]], h[0]])
+    t["json_contained_by_doc"] = (1, lambda h: ["and", ["contained_by", A_, ["raw", {"k": 7302}]], ["eq", B_, h[0]]])
+    t["json_has_all_keys"] = (1, lambda h: ["and", ["has_keys", A_, ["raw", ["k1", "k2"]]], ["eq", B_, h[0]]])
+    t["json_has_key"] = (2, lambda h: ["and", ["has_key", A_, h[0]], ["eq", B_, h[1]]])
     t["not"] = (2, lambda h: ["not", ["eq", ["add", A_, h[0]], h[1]]])
     t["neg"] = (2, lambda h: ["gt", ["neg", ["add", A_, h[0]]], h[1]])
     t["isnull"] = (2, lambda h: ["isnull", ["add", ["add", A_, h[0]], h[1]]])
